@@ -28,6 +28,7 @@
 //   est  SYS ENV starts <n> (<reals>)*n GOAL cell=<bits> k=<n> att=<n> bias=<bits> seed=<n> iters=<n>   -> result + `estplay …`
 //   kpiece SYS ENV starts <n> (<reals>)*n GOAL cell=<bits> nclose=<n> bias=<bits> seed=<n> iters=<n>   -> result + `kpieceplay …`
 //   pdst SYS ENV starts <n> (<reals>)*n GOAL k=<n> bias=<bits> seed=<n> iters=<n>   -> result + `pdstplay …`
+//   hist <planner> SYS ENV starts <n> (<reals>)*n GOAL k=<n> bias=<bits> seed=<n> ops (solve <budget> | clear)*
 //   plan <planner> SYS ENV starts <n> (<reals>)*n GOAL k=<n> steer=<0|1> bias=<bits> seed=<n> budget=<n>
 //
 // doubles are decimal u64 bit patterns.  The three systems are written here once (SysPropagator) and
@@ -1617,41 +1618,9 @@ static std::string opPdst(const Toks &t, std::string &playLine)
     return showSolution(sys, pdef, st, *si) + " | " + planner->dump(sys);
 }
 
-static std::string opPlan(const Toks &t)
+static ob::PlannerPtr makeControlPlanner(const std::string &name, const std::shared_ptr<oc::SpaceInformation> &si, const Sys &sys,
+                                         double bias)
 {
-    size_t i = 1;
-    if (i >= t.size())
-        throw vp::ParseError("planner");
-    std::string name = t[i++];
-    Problem pb;
-    pb.parse(t, i);
-    unsigned k = needKV(t, i, "k");
-    unsigned steer = needKV(t, i, "steer");
-    double bias = needKVbits(t, i, "bias");
-    unsigned long seed = needKV(t, i, "seed");
-    unsigned long budget = needKV(t, i, "budget");
-    if (i != t.size() || budget > 5000000 || k < 1 || k > 50)
-        throw vp::ParseError("plan args");
-    ompl::RNG::setSeed(seed + 1);
-    const Sys &sys = pb.sys;
-    std::shared_ptr<SysPropagator> prop;
-    auto si = makeSI(sys, prop);
-    prop->steerable = steer != 0;   // canSteer() => allocDirectedControlSampler() hands out a SteeredControlSampler
-    si->setStateValidityChecker(std::make_shared<EnvValidity>(si, pb.env));
-    // k = 1 is the library default (SimpleDirectedControlSampler with one control sample)
-    if (k > 1)
-        si->setDirectedControlSamplerAllocator(
-            [k](const oc::SpaceInformation *s) { return std::make_shared<oc::SimpleDirectedControlSampler>(s, k); });
-    si->setup();
-    auto pdef = std::make_shared<ob::ProblemDefinition>(si);
-    ob::State *s0 = si->allocState();
-    for (const auto &st0 : pb.starts)
-    {
-        sys.space->copyFromReals(s0, st0);
-        pdef->addStartState(s0);
-    }
-    si->freeState(s0);
-    pdef->setGoal(makeGoal(pb.goalKind, si, pb.goal, pb.thr, nullptr));
     auto proj = std::make_shared<XYProjection>(sys.space, sys);
     ob::PlannerPtr planner;
     if (name == "RRT" || name == "RRTi")
@@ -1704,12 +1673,145 @@ static std::string opPlan(const Toks &t)
     }
     else
         throw vp::ParseError("planner " + name);
+    return planner;
+}
+
+static std::string opPlan(const Toks &t)
+{
+    size_t i = 1;
+    if (i >= t.size())
+        throw vp::ParseError("planner");
+    std::string name = t[i++];
+    Problem pb;
+    pb.parse(t, i);
+    unsigned k = needKV(t, i, "k");
+    unsigned steer = needKV(t, i, "steer");
+    double bias = needKVbits(t, i, "bias");
+    unsigned long seed = needKV(t, i, "seed");
+    unsigned long budget = needKV(t, i, "budget");
+    if (i != t.size() || budget > 5000000 || k < 1 || k > 50)
+        throw vp::ParseError("plan args");
+    ompl::RNG::setSeed(seed + 1);
+    const Sys &sys = pb.sys;
+    std::shared_ptr<SysPropagator> prop;
+    auto si = makeSI(sys, prop);
+    prop->steerable = steer != 0;   // canSteer() => allocDirectedControlSampler() hands out a SteeredControlSampler
+    si->setStateValidityChecker(std::make_shared<EnvValidity>(si, pb.env));
+    // k = 1 is the library default (SimpleDirectedControlSampler with one control sample)
+    if (k > 1)
+        si->setDirectedControlSamplerAllocator(
+            [k](const oc::SpaceInformation *s) { return std::make_shared<oc::SimpleDirectedControlSampler>(s, k); });
+    si->setup();
+    auto pdef = std::make_shared<ob::ProblemDefinition>(si);
+    ob::State *s0 = si->allocState();
+    for (const auto &st0 : pb.starts)
+    {
+        sys.space->copyFromReals(s0, st0);
+        pdef->addStartState(s0);
+    }
+    si->freeState(s0);
+    pdef->setGoal(makeGoal(pb.goalKind, si, pb.goal, pb.thr, nullptr));
+    ob::PlannerPtr planner = makeControlPlanner(name, si, sys, bias);
     planner->setProblemDefinition(pdef);
     planner->setup();
     auto cnt = std::make_shared<vp::EvalCounter>();
     cnt->fireAt = budget;
     ob::PlannerStatus st = planner->solve(vp::evalCountPtc(cnt));
     return showSolution(sys, pdef, st, *si) + " evals=" + std::to_string(cnt->evals.load());
+}
+
+
+// one solution of the problem definition, in the format of showSolution
+static std::string showOne(const Sys &sys, const ob::PlannerSolution &sol, const ob::GoalPtr &goal, const char *status,
+                           const oc::SpaceInformation &si)
+{
+    std::string out = std::string("status=") + status + " has=1 approx=" + (sol.approximate_ ? "1" : "0") + " dif=" +
+                      vp::bits(sol.difference_) + " " + sysBounds(si);
+    auto *p = dynamic_cast<oc::PathControl *>(sol.path_.get());
+    if (!p)
+        return out + " path=not-a-PathControl";
+    out += std::string(" libcheck=") + (p->check() ? "1" : "0");
+    out += std::string(" insidegoal=") +
+           (p->getStateCount() > 0 && goal->isSatisfied(p->getState(p->getStateCount() - 1)) ? "1" : "0");
+    return out + " path " + showPath(sys, *p);
+}
+
+// `hist <planner> SYS ENV starts … GOAL k=<n> bias=<bits> seed=<n> ops (solve <budget> | clear)*`: a HISTORY on one planner
+// object — repeated solve() (continue planning) and clear()+solve().  One output line per `solve`: the status and EVERY
+// solution path the problem definition holds afterwards (` || ` separated), so that paths reported by a continued or a
+// re-started planner go through the same replay oracle.  `clear` = planner->clear() + pdef->clearSolutionPaths().
+static std::string opHist(const Toks &t)
+{
+    size_t i = 1;
+    if (i >= t.size())
+        throw vp::ParseError("planner");
+    std::string name = t[i++];
+    Problem pb;
+    pb.parse(t, i);
+    unsigned k = needKV(t, i, "k");
+    double bias = needKVbits(t, i, "bias");
+    unsigned long seed = needKV(t, i, "seed");
+    expect(t, i, "ops");
+    std::vector<long> ops;   // >= 0: solve budget, -1: clear
+    while (i < t.size())
+    {
+        if (t[i] == "clear")
+        {
+            ops.push_back(-1);
+            ++i;
+        }
+        else if (t[i] == "solve")
+        {
+            ++i;
+            unsigned long b = vp::needN(t, i);
+            if (b > 5000000)
+                throw vp::ParseError("budget");
+            ops.push_back((long)b);
+        }
+        else
+            throw vp::ParseError("hist op");
+    }
+    if (k < 1 || k > 50 || ops.size() > 16)
+        throw vp::ParseError("hist args");
+    ompl::RNG::setSeed(seed + 1);
+    const Sys &sys = pb.sys;
+    std::shared_ptr<SysPropagator> prop;
+    auto si = makeSI(sys, prop);
+    si->setStateValidityChecker(std::make_shared<EnvValidity>(si, pb.env));
+    if (k > 1)
+        si->setDirectedControlSamplerAllocator(
+            [k](const oc::SpaceInformation *s) { return std::make_shared<oc::SimpleDirectedControlSampler>(s, k); });
+    si->setup();
+    auto pdef = std::make_shared<ob::ProblemDefinition>(si);
+    ob::State *s0 = si->allocState();
+    for (const auto &st0 : pb.starts)
+    {
+        sys.space->copyFromReals(s0, st0);
+        pdef->addStartState(s0);
+    }
+    si->freeState(s0);
+    pdef->setGoal(makeGoal(pb.goalKind, si, pb.goal, pb.thr, nullptr));
+    ob::PlannerPtr planner = makeControlPlanner(name, si, sys, bias);
+    planner->setProblemDefinition(pdef);
+    planner->setup();
+    std::string out;
+    for (long op : ops)
+    {
+        if (op < 0)
+        {
+            planner->clear();
+            pdef->clearSolutionPaths();
+            continue;
+        }
+        auto cnt = std::make_shared<vp::EvalCounter>();
+        cnt->fireAt = (unsigned long)op;
+        ob::PlannerStatus st = planner->solve(vp::evalCountPtc(cnt));
+        std::string line = std::string("solve status=") + vp::statusName(st) + " nsol=" + std::to_string(pdef->getSolutionCount());
+        for (const auto &sol : pdef->getSolutions())
+            line += " || " + showOne(sys, sol, pdef->getGoal(), vp::statusName(st), *si);
+        out += (out.empty() ? "" : "\n") + line;
+    }
+    return out.empty() ? "solve none" : out;
 }
 
 int main()
@@ -1742,6 +1844,11 @@ int main()
                 std::cout << opPath(t, 1) << "\n";
             else if (t[0] == "pgeom")
                 std::cout << opPath(t, 2) << "\n";
+            else if (t[0] == "hist")
+            {
+                planned = true;
+                std::cout << opHist(t) << "\n";
+            }
             else if (t[0] == "pmisc")
             {
                 planned = true;
@@ -1749,7 +1856,7 @@ int main()
             }
             else if (t[0] == "stepcount")
                 std::cout << opStepCount(t) << "\n";
-            else if ((t[0] == "rrt" || t[0] == "plan" || t[0] == "sst" || t[0] == "est" || t[0] == "kpiece" || t[0] == "pdst" || t[0] == "pmisc") && planned)
+            else if ((t[0] == "rrt" || t[0] == "plan" || t[0] == "sst" || t[0] == "est" || t[0] == "kpiece" || t[0] == "pdst" || t[0] == "pmisc" || t[0] == "hist") && planned)
                 std::cout << "bad-op\n";  // the global RNG seed can be set once per process
             else if (t[0] == "rrt")
             {
